@@ -76,6 +76,11 @@ class C19(Spec):
             c = list(SETUP)
             for x in seq: c += x.split("\n")
             cases.append(c)
+        # versions BELOW every marker (-3, -7, i32::MIN): -1 means `unversioned` and -2 `in conflict`; anything lower is just a very stale
+        # version, to be resolved like version 0 — never stored as it is
+        low = ["C 1 set a p1", "C 2 set-safe a -3 m3", "C 2 set-safe a -7 m7", "C 2 set-safe a -2147483648 mmin", "C 1 replicate t a -3 r3", "C 2 set-safe a 1 s1", "C 1 get-safe a", "C 1 remove a"]
+        for seq in itertools.product(low, repeat=3 if tier == "quick" else 4):
+            cases.append(list(SETUP) + ["C 1 set a 0", "C 1 set a 1", "C 1 set a 2"] + list(seq) + ["C 1 get-safe a"])
         # the same for a SECURE key (`$$…`: only the administrator's session and the cluster command can write it): it lives in the same database
         # and goes through the same strategy — on the database created as `newer`, and on `$admin`, which is `newer` by default
         als = [x for x in alphabet(("$$flag",)) if not x.startswith("C 2")] + ["C 1 set-safe $$flag 0 t0", "C 1 set-safe $$flag 1 t1", "C 1 set-safe $$flag 3 t3"]
@@ -121,7 +126,11 @@ class C19(Spec):
                     else:
                         if k not in cur or core.unesc(cur[k]["v"]).decode() != val:
                             fails.append(Failure("last-write-not-stored", f"{inp}: stored {cur.get(k)}"))
-                        if k in prev and k in cur and prev[k]["st"] != "D" and not cur[k]["ver"] > prev[k]["ver"]:
+                        # (a key that carries the in-conflict marker -2 keeps it through every write until it is resolved — `keep_in_conflict_resolution`,
+                        # by design; a client reaches that state on any database by writing version -3 to an absent key, whose first version is the
+                        # written one plus one.  Pinned is not `shrinking`: the property says the version only grows, not that it always does)
+                        pinned = prev.get(k, {}).get("ver") == -2 and cur[k]["ver"] == -2 if k in cur else False
+                        if k in prev and k in cur and prev[k]["st"] != "D" and not cur[k]["ver"] > prev[k]["ver"] and not pinned:
                             fails.append(Failure("newer-version-not-growing", f"{inp}: {prev[k]['ver']} -> {cur[k]['ver']}"))
                         # "resolved in favour of the most recently issued change": the entry must carry the operation id of the change that was
                         # stored, or the next stale write is compared with the wrong one (ids are canonical: #NNNN in order of first appearance)
